@@ -1,17 +1,21 @@
-(* C11 — property theorems (statements only; proofs live in Acme.C11.{Proofs,Strings,RoundTrip}).
+(* C11 — property theorems (statements only; proofs live in Acme.C11.{Proofs,Strings,RoundTrip,RoundTripEnum}).
    Model: Acme.C10.{Export,Import,BusModel}; `export_import b = import (text_roundtrip (export b))`.
    Partial: the whole-bus theorem `export_import_ast_plain_partial` is an AST-level statement (import of the
    exported AST after the MODELLED write/parse effect; names need not be identifiers) proved for PLAIN buses (standard signals,
    descriptions of the bus, nodes, messages and signals; no attributes / timing / enums / multiplexers):
    nodes in order with description, messages by CAN-ID with name, size, byte order, sender, receivers,
    description, signals with name, start bit in both byte orders, size, signedness, factor, offset,
-   minimum, maximum, unit, description, names with blanks.  The full statement is
+   minimum, maximum, unit, description, names with blanks; `export_import_ast_enum_partial` extends it to
+   buses with ENUM signals (`ebus`: any well-formed enum table, enums shared between signals, enums
+   with equal values and different minimum sizes, enums without values): enum values and signal size
+   are reproduced although the imported enum table differs (tables matched by content, clones per size).
+   The full statement is
    Acme.C11.RoundTrip.export_import_full_statement (well_formed, names_ok spelled out there).
    The other ingredients are proved in isolation: the four attribute types (+hex) and their defaults
    through the write/parse effect, SG_MUL_VAL_ ranges, the start-bit conversion, the sanitiser. *)
 From Coq Require Import String ZArith List.
 From Acme.C10 Require Import DbcDoc BusModel Import Export Bits.
-From Acme.C11 Require Import Strings Proofs RoundTrip Refuted.
+From Acme.C11 Require Import Strings Proofs RoundTrip RoundTripEnum Refuted.
 Import ListNotations.
 Open Scope Z_scope.
 
@@ -26,6 +30,12 @@ Theorem export_import_ast_plain_partial : forall b, plain_bus b ->
   exists b', export_import b = Ok b' /\ proj_bus b' = proj_bus b.
 Proof. exact RoundTrip.export_import_plain_thm. Qed.
 Print Assumptions export_import_ast_plain_partial.
+
+(* the same for buses with standard AND enum signals (top-level; no attributes / timing / multiplexers) *)
+Theorem export_import_ast_enum_partial : forall b, ebus b ->
+  exists b', export_import b = Ok b' /\ proj_bus b' = proj_bus b.
+Proof. exact RoundTripEnum.export_import_enum_thm. Qed.
+Print Assumptions export_import_ast_enum_partial.
 
 (* attribute definitions of the four types (and hex format), defaults included *)
 Theorem attr_def_roundtrip : forall k name d, wf_def d ->
